@@ -48,6 +48,7 @@ var elementsOf = map[string][2]int{"/cons/mm": {1, 3}, "/cons/mmin": {2, 0}, "/s
 
 var ifNameRe = regexp.MustCompile(`^/if\[name=([^\]]*)\]/name$`)
 var peerViaRe = regexp.MustCompile(`^/peer\[name=[^\]]*\]\[zone=[^\]]*\]/via$`)
+var unitChkRe = regexp.MustCompile(`^(/if\[name=[^\]]*\])/unit\[id=[^\]]*\]/chk$`)
 var mlistRe = regexp.MustCompile(`^(/cons/mlist\[k=[^\]]*\])/`)
 
 func llElems(v string) []string {
@@ -133,6 +134,17 @@ func Validate(cfg map[string]string, disabled map[string]bool) []Violation {
 			}
 		case p == "/cons/mst/f":
 			if cfg["/cons/mst/e"] != "true" {
+				add("must", p)
+			}
+		case p == "/cons/mst/h":
+			// g has the default "gd"
+			if g, ok := cfg["/cons/mst/g"]; ok && g != "gd" {
+				add("must", p)
+			}
+		case unitChkRe.MatchString(p):
+			// enabled has the default true
+			m := unitChkRe.FindStringSubmatch(p)
+			if en, ok := cfg[m[1]+"/enabled"]; ok && en != "true" {
 				add("must", p)
 			}
 		}
